@@ -22,7 +22,18 @@ fn viol(prop: &str, signature: String, detail: String) -> Violation {
 
 pub const WS_URIS: &[&str] = &["ws:a.st", "ws:b.st", "ws:c.st", "ws:d.st"];
 pub const ODD_URIS: &[&str] = &["untitled:Untitled-1", "http://example.com/x.st", "ws:a%20b.st", "file:///C:/dir/x.st", "ws:never.st", "ws:sub/deep.st"];
-pub const UNKNOWN_REQUESTS: &[&str] = &["textDocument/hover", "textDocument/completion", "workspace/symbol", "$/unknown", "textDocument/definition", "textDocument/documentSymbol"];
+pub const UNKNOWN_REQUESTS: &[&str] = &[
+    "textDocument/hover",
+    "textDocument/completion",
+    "workspace/symbol",
+    "$/unknown",
+    "textDocument/definition",
+    "textDocument/documentSymbol",
+    // methods whose names extend or shorten an implemented one
+    "textDocument/semanticTokens/full/delta",
+    "textDocument/semanticTokens",
+    "shutdown/now",
+];
 pub const UNKNOWN_NOTIFICATIONS: &[&str] =
     &["textDocument/didClose", "textDocument/didSave", "$/cancelRequest", "$/setTrace", "workspace/didChangeConfiguration", "workspace/didChangeWatchedFiles", "$/simplc/unknown"];
 
